@@ -29,7 +29,7 @@ OUT_OF_SCOPE = {"xgi.drawing.draw:draw_directed_dyads": "not among the functions
 def run(ctx):
     repo = ctx.repo
     res = Result(PROP)
-    res.rules = ["K1", "K2", "K5", "L-KEYS", "L-ORDER", "L-RANGE", "L-CUT", "L-FACEID", "L-FLOW", "L-POLY", "L-FWD", "L-IDX"]
+    res.rules = ["K1", "K2", "K5", "L-KEYS", "L-ORDER", "L-RANGE", "L-CUT", "L-FACEID", "L-FLOW", "L-POLY", "L-FWD", "L-IDX", "L-SORT"]
     res.explanation = (
         "Narrow claim: kind inference (labels vs positions) over the layout and drawing modules, key provenance of the "
         "dict every layout returns, and agreement of the permutation applied to per-edge style arrays and patches. "
@@ -38,7 +38,28 @@ def run(ctx):
     fns = [f for f in functions_of(repo, ["xgi.drawing"]) if f.fq not in OUT_OF_SCOPE]
     for fq, why in OUT_OF_SCOPE.items():
         res.info.append({"scoped_out": fq, "reason": why})
-    run_kinds(ctx, res, PROP, fns, 60, 8, floor_functions=10)
+    eng = run_kinds(ctx, res, PROP, fns, 60, 8, floor_functions=10)
+    # L-SORT: "draws any network whatever its labels" - labels need not be mutually orderable (1 and 'a' in one edge), so
+    # the drawing code never orders labels with sorted() / min() / max() / .sort() unless a key= makes them comparable or a
+    # type filter restricts what is compared
+    in_scope = {f.fq: f for f in fns}
+    seen_sort = set()
+    n_sort = 0
+    for (fq, pk), r in eng.results.items():
+        if fq not in in_scope:
+            continue
+        for node, what in r.order_uses:
+            if (fq, node.lineno, node.col_offset) in seen_sort:
+                continue
+            seen_sort.add((fq, node.lineno, node.col_offset))
+            n_sort += 1
+            has_key = isinstance(node, ast.Call) and any(k.arg == "key" for k in node.keywords)
+            typed = isinstance(node, ast.Call) and any(isinstance(x, ast.Call) and getattr(x.func, "id", None) == "isinstance" for a in node.args for x in ast.walk(a))
+            ok = has_key or typed
+            res.inst("L-SORT", f"{fq}:{node.lineno} {what} with a key or a type filter", ok)
+            if not ok:
+                res.add(mk_finding(PROP, "L-SORT", in_scope[fq], node, f"{in_scope[fq].qualname}: `{unparse(node, 50)}` orders node / edge labels; labels of one network need not be comparable with each other (an int and a str in the same edge), so drawing such a network raises TypeError instead of drawing it", role="sort"))
+    res.inst("L-SORT", f"{n_sort} orderings of labels found in the drawing code", True)
     if ctx.only:
         return res
     lay = repo.modules.get("xgi.drawing.layout")
